@@ -83,3 +83,7 @@ def modifies(*a, **k): pass
 def loop(*a, **k): pass
 def ghost(*a, **k): pass
 def uses(*a, **k): pass
+
+
+def cut(x):
+    return bool(x)
